@@ -27,6 +27,14 @@ def eval_call(ex, node: ast.Call, st):
         if f.id == "isinstance":
             v = ex.ev(node.args[0], st)
             cls = ast.unparse(node.args[1])
+            vi = T.opt_inner(v)
+            if isinstance(vi.ty, T.Ref):
+                dyn = REG.classes.get(vi.ty.cls, {}).get("isinstance", {}).get(cls)
+                if dyn is not None:
+                    r = ex.spec_eval(st, dyn, {"self": vi})
+                    if isinstance(v.ty, T.Opt):
+                        return T.mk_bool(z3.And(z3.Not(v.terms[0]), r.t))
+                    return r
             r = _static_isinstance(v, cls)
             if r is not None:
                 return T.mk_bool(r)
@@ -35,6 +43,9 @@ def eval_call(ex, node: ast.Call, st):
             an = node.args[1].value if isinstance(node.args[1], ast.Constant) else None
             if isinstance(v.ty, T.Ref) and an:
                 cl = REG.classes.get(v.ty.cls, {})
+                dynh = cl.get("hasattr", {}).get(an)
+                if dynh is not None:
+                    return ex.spec_eval(st, dynh, {"self": v})
                 if an in cl.get("has", ()):
                     return T.mk_bool(True)
                 if an in cl.get("hasnot", ()):
@@ -241,6 +252,8 @@ def _apply_directive(ex, d, node, st, txt):
             fk = REG.field_key(fname, cls)
             ex.h.set_field(st, o, fk[0], fk[1], ex.ev(a, st))
         return V(T.Ref(cls), [o])
+    if kind == "pyfunc":
+        return d[1](ex, node, st, recv)
     if kind == "keyfield":
         # recv.get("key"[, default]) on a str-keyed record (e.g. Project.attributes): constant key -> field <cls>.<key>
         cls = d[1]
